@@ -1,5 +1,6 @@
 (** C04 — Hard placement constraints hold for every bind and nomination.
-    Statements only; proofs are in Proofs/Placement.v and Proofs/Topology.v.
+    Statements only; proofs are in Proofs/Placement.v, Proofs/Topology.v and
+    Proofs/TopologyPinning.v.
 
     Oracles (every statement holds for all of them): node order / scoring, the
     capacity and resource checks, whether a failed statement keeps its partial
@@ -8,7 +9,7 @@
     represented by the checker [hard_ok]; that the real filters compute it is
     validated by differential execution (harness/internal/c04), not proved. *)
 From Coq Require Import List String ZArith Bool.
-From KaiV Require Import Model.Placement Model.Topology Proofs.Placement Proofs.Topology.
+From KaiV Require Import Model.Status Model.Placement Model.Topology Proofs.Placement Proofs.Topology Proofs.TopologyPinning.
 Import ListNotations.
 Open Scope string_scope.
 Open Scope list_scope.
@@ -81,6 +82,63 @@ Theorem C04_topology_required_partial :
            GroupOK topos nodes (tc_of g') (map snd (entries (members g') act)) (map snd (entries (members g') new)).
 Proof. exact topology_required_partial. Qed.
 Print Assumptions C04_topology_required_partial.
+
+(** Which pods pin the domain.  The plugin is handed EVERY pod of the workload
+    with its status ([ps]) and pins the required-level domains that hold a pod
+    whose status passes [pin_rule] (IsActiveAllocatedStatus).  For all topology
+    trees, sub-group trees, pod tables - terminating (Releasing) or finished
+    pods of the workload on any node whatsoever - and all oracles: the pods a
+    decision places lie, per constrained (sub-)group, in one required-level
+    domain together with an ACTIVE pod of the group, and if the group's active
+    pods were in one domain, active and newly placed pods together are. *)
+Theorem C04_terminating_pods_do_not_pin :
+  forall (topos : list topo) (nodes : list pnode)
+         (sel : option tcons -> list positive -> list string -> active_t -> list (nat * (string -> bool)))
+         (place : list string -> positive -> active_t -> option string)
+         (tasks : list positive) (g : sgt) (allowed : list string) (ps : spods) (act' : active_t),
+    (forall T, In T topos -> topo_wf T) -> NoDup (map nd_name nodes) -> NoDup (members g) ->
+    IdsInjective topos nodes ->
+    alloc_sg topos nodes sel place tasks g allowed (pinning pin_rule ps) = Some act' ->
+    exists new, act' = new ++ pinning pin_rule ps
+      /\ Forall (fun e => In (snd e) allowed /\ In (fst e) (members g) /\ In (fst e) tasks) new
+      /\ (forall g', In g' (subgroups g) ->
+            GroupOK topos nodes (tc_of g') (map snd (entries (members g') (active_pods ps))) (map snd (entries (members g') new)))
+      /\ (forall g' T l, In g' (subgroups g) -> required_level topos (tc_of g') = Some (T, l) ->
+            InOneDomain T nodes l (map snd (entries (members g') (active_pods ps))) ->
+            InOneDomain T nodes l (map snd (entries (members g') (active_pods ps)) ++ map snd (entries (members g') new))).
+Proof. exact pin_rule_sound. Qed.
+Print Assumptions C04_terminating_pods_do_not_pin.
+
+(** The decision is the one that would be taken if the pods that are not
+    active (terminating, finished) did not exist at all. *)
+Theorem C04_inactive_pods_are_ignored :
+  forall topos nodes sel place tasks g allowed (ps : spods),
+    alloc_sg topos nodes sel place tasks g allowed (pinning pin_rule ps)
+    = alloc_sg topos nodes sel place tasks g allowed (pinning pin_rule (only_active ps)).
+Proof. exact inactive_pods_ignored. Qed.
+Print Assumptions C04_inactive_pods_are_ignored.
+
+(** NOT the code: pinning on the active-USED statuses (the class that also
+    holds Releasing) violates the same statement - the injectivity proviso
+    granted.  Witness = the world of seeded/C04-4: rack1 {node-a: pod 1
+    Running}, rack2 {node-b: pod 2 Releasing, node-c free}, pod 3 pending,
+    required level rack: pod 3 is placed on node-c, the workload's active pods
+    are then spread over rack1 and rack2. *)
+Theorem C04_pinning_on_used_statuses_refuted : ~ pinning_sound pin_rule_used.
+Proof. exact pin_rule_used_refuted. Qed.
+Print Assumptions C04_pinning_on_used_statuses_refuted.
+
+(** The same world under both rules (non-vacuity of the two theorems above):
+    the code's rule leaves the pod pending when rack1 is full and sends it to
+    rack1 when rack1 has room; the other rule places it in rack2. *)
+Theorem C04_pinning_nonvacuous :
+  alloc_sg [rd_T] rd_nodes ex_sel_all rd_place [3%positive] rd_tree rd_names (pinning pin_rule rd_ps) = None
+  /\ alloc_sg [rd_T] rd_nodes' ex_sel_all rd_place' [3%positive] rd_tree (map nd_name rd_nodes') (pinning pin_rule rd_ps)
+     = Some [(3%positive, "node-d"); (1%positive, "node-a")]
+  /\ alloc_sg [rd_T] rd_nodes ex_sel_all rd_place [3%positive] rd_tree rd_names (pinning pin_rule_used rd_ps)
+     = Some [(3%positive, "node-c"); (1%positive, "node-a"); (2%positive, "node-b")].
+Proof. exact rd_runs. Qed.
+Print Assumptions C04_pinning_nonvacuous.
 
 (** The proviso is decidable (this is what the monitor evaluates per case). *)
 Theorem C04_ids_injective_decidable :
